@@ -24,6 +24,9 @@ is invisible: no view changes across a `gc` (`gc_view`) and deleting every `gc` 
 monotone history changes no view at all (`gc_transparent`).  What remains, by design of
 "replace only by newer": a result rejected by a live higher-or-equal entry is not resurrected
 when that entry runs out of TTL before the rejected one would have (`handed_residual`).
+`gc` is one critical section in the code (lock fact), hence atomic here; a collector split into a
+scan and an eviction without re-check would lose fresh results (`gcTwoPhaseOld_loses_fresh`), one
+with a re-check would not (`gc_recheck_safe`); the harness races the real collector against Adds.
 The pinned tree (`add1Old`) violates the clause and the transparency: `handedStrong_fails_old`,
 `gc_not_transparent_old`.
 -/
@@ -491,6 +494,60 @@ theorem gcOrd_eq_gc (ttl now : Nat) (evs : List Ev) (ord : List String)
   have : p.1 ∈ ord := hall p.1 (List.mem_map.mpr ⟨p, hp, rfl⟩)
   simp [this]
 
+/-- a collector that gathers keys first and evicts later is harmless as long as the eviction
+re-checks expiry under the write lock (`gcOrd` visits any, possibly stale, key list `ks`):
+no view taken at or after it changes -/
+theorem gc_recheck_safe (ttl now t : Nat) (hle : now ≤ t) (evs : List Ev) (ks : List String) :
+    view ttl t (gcOrd ttl now (run ttl [] evs) ks) = view ttl t (run ttl [] evs) := by
+  rw [gcOrd_eq_filter ttl now ks _ (wf_reach ttl evs).1]
+  simp only [view, List.filter_filter]
+  congr 1
+  apply List.filter_congr
+  intro p _
+  have himp : expired ttl now p.2 = true → expired ttl t p.2 = true := by
+    intro h
+    rw [expired_true_iff] at *
+    omega
+  cases h1 : expired ttl t p.2 <;> cases h2 : expired ttl now p.2 <;> cases h3 : ks.contains p.1 <;> simp_all
+
+private theorem foldl_erase (ks : List String) (s : Store) :
+    ks.foldl erase s = s.filter (fun p => !ks.contains p.1) := by
+  induction ks generalizing s with
+  | nil =>
+    simp only [List.foldl_nil, List.contains_nil, Bool.not_false]
+    exact (List.filter_eq_self.mpr (fun _ _ => rfl)).symm
+  | cons k ks ih =>
+    simp only [List.foldl_cons, ih, erase, List.filter_filter]
+    apply List.filter_congr
+    intro p _
+    simp only [List.contains_cons]
+    by_cases hk : p.1 = k <;> simp [hk]
+
+/-- scan and eviction in ONE critical section (nothing in between) are exactly `gc` — the code as
+it is, by the lock fact -/
+theorem gc_scan_evict_atomic (ttl now : Nat) (evs : List Ev) :
+    gcEvictOld (run ttl [] evs) (gcScan ttl now (run ttl [] evs)) = gc ttl now (run ttl [] evs) := by
+  have hwf := wf_reach ttl evs
+  rw [gcEvictOld, foldl_erase, gc]
+  apply List.filter_congr
+  intro p hp
+  congr 1
+  by_cases hx : expired ttl now p.2 = true
+  · have : p.1 ∈ gcScan ttl now (run ttl [] evs) :=
+      List.mem_map.mpr ⟨p, List.mem_filter.mpr ⟨hp, hx⟩, rfl⟩
+    simp [hx, this]
+  · have : p.1 ∉ gcScan ttl now (run ttl [] evs) := by
+      intro hm
+      obtain ⟨q, hq, hqk⟩ := List.mem_map.mp hm
+      obtain ⟨hqs, hqx⟩ := List.mem_filter.mp hq
+      have h1 := get_of_mem hwf.1 (show (p.1, q.2) ∈ run ttl [] evs by rw [← hqk]; exact hqs)
+      have h2 := get_of_mem hwf.1 (show (p.1, p.2) ∈ run ttl [] evs from hp)
+      rw [h1] at h2
+      have : q.2 = p.2 := Option.some.inj h2
+      rw [this] at hqx
+      exact hx hqx
+    simp [hx, this]
+
 private theorem strip_aux (ttl : Nat) :
     ∀ (evs : List Ev) (s s' : Store) (lo : Nat), WF s → WF s' →
       (∀ w, liveO ttl lo (get s w) = liveO ttl lo (get s' w)) → (∀ x ∈ evs, lo ≤ x.now) → Mono evs →
@@ -840,6 +897,20 @@ theorem gc_not_transparent_old :
       (runOld Gen.storeTTLNs [] [.add 0 (res "w" 10), .add (Gen.storeTTLNs + 1) (res "w" 5)]) = [] := by
   decide
 
+/-- a collector split into a scan (read lock) and an eviction by key (write lock) WITHOUT a
+re-check loses a fresh result: `w@10` staged at 0; at `ttl+1` the scan lists `w`; `w@5` is added
+(stored: the entry is dead); the eviction deletes it.  Either atomic order keeps `w@5`. -/
+theorem gcTwoPhaseOld_loses_fresh :
+    let t := Gen.storeTTLNs + 1
+    let s0 := run Gen.storeTTLNs [] [.add 0 (res "w" 10)]
+    gcScan Gen.storeTTLNs t s0 = ["w"] ∧
+    view Gen.storeTTLNs t (gcEvictOld (add1 Gen.storeTTLNs t s0 (res "w" 5)) (gcScan Gen.storeTTLNs t s0)) = [] ∧
+    view Gen.storeTTLNs t (gc Gen.storeTTLNs t (add1 Gen.storeTTLNs t s0 (res "w" 5))) = [res "w" 5] ∧
+    view Gen.storeTTLNs t (add1 Gen.storeTTLNs t (gc Gen.storeTTLNs t s0) (res "w" 5)) = [res "w" 5] ∧
+    view Gen.storeTTLNs t (gcOrd Gen.storeTTLNs t (add1 Gen.storeTTLNs t s0 (res "w" 5)) (gcScan Gen.storeTTLNs t s0))
+      = [res "w" 5] := by
+  decide
+
 /-! ### non-vacuity -/
 
 private def h1 : List Ev :=
@@ -866,6 +937,9 @@ example : view 100 200 (run 100 [] (h1 ++ [.add 200 (res "a" 6)])) = [res "a" 6]
 example : blk (res "a" 6) ≤ blk (res "a" 7) ∧ blk (res "a" 7) < blk (res "a" 8) ∧ 50 - 5 ≤ 100 ∧ 200 - 5 > 100 := by decide
 -- `gcOrd_eq_gc`: a visiting order with a repeat and a foreign key
 example : gcOrd 100 200 (run 100 [] h1) ["a", "zz", "a"] = [] ∧ keys (run 100 [] h1) = ["a"] := by decide
+-- `gc_recheck_safe` / `gc_scan_evict_atomic`: a stale key list on a store with a dead and a live entry
+example : gcScan 100 200 (run 100 [] (h1 ++ [.add 150 (res "c" 1)])) = ["a"] ∧
+    gcOrd 100 200 (run 100 [] (h1 ++ [.add 150 (res "c" 1)])) ["c", "a", "gone"] = [("c", ⟨res "c" 1, 150⟩)] := by decide
 -- `gc_transparent`: a monotone history whose collector events matter for the store but not for any view
 example : monoB (h1 ++ [.gc 200, .add 200 (res "a" 6)]) = true ∧
     run 100 [] (h1 ++ [.gc 200]) ≠ run 100 [] (stripGc (h1 ++ [.gc 200])) ∧
